@@ -64,3 +64,8 @@ claimed["C20"] = (
  "Decides on every path: exclusive creation by default and no overriding option; Create gets the command's layout, method and xFilesFactor; the fill and its write happen only under Fill, from randomPointsList(layout, rnd, max, now, now) at one clock reading with one list per archive; values are Intn(max+1) or the finer-sum helper and the plain random value is used only for slots strictly before the first slot holding finer data; times are offsets from the truncated until; every success path passes a checked Sync. Necessary structural conditions of C20.",
  "Not decided: the numeric bound max*step/step0 and sum-consistency of every coarser slot (value clauses of the random construction).",
  "DESIGN.md 5 (C20)")
+claimed["C12"] = (
+ "static sibling/set agreement (routes, query keys, parameter flows) over SSA expressions, callee identity, return classification, framing-sequence comparison",
+ "Decides: every dispatcher's local branch and the handler of the route its remote branch requests run the same Local function; client query keys = handler keys and each key reaches the Local parameter the local path feeds from the same dispatcher argument; query values are QueryEscape'd, timestamps cross as String()/ParseTimestamp; handler AppendTo sequence = client TakeFrom sequence (Header, then one element per archive of the header); not-exist protocol on both ends incl. empty-body signalling and an os.ErrNotExist PathError, with remote errors returned unwrapped. Necessary structural conditions of C12.",
+ "Not decided: equality of results through real HTTP round trips, net/http behaviour, url escaping round-trip semantics beyond callee identity.",
+ "DESIGN.md 5 (C12)")
